@@ -111,6 +111,18 @@ func c04Scenarios(tier string) []*Scenario {
 				}
 			}
 		}
+		// two calls at once on one channel, the context ending while a response is being decoded: "the complete
+		// real result or the cancellation status" also means nothing that belongs to the other call
+		if tr == "inproc" || tier == "thorough" {
+			// (over HTTP this state space is out of reach of the quick budget: not even bound 0 completes in four
+			// CPU-minutes; the cross-talk itself, without a cancellation, is C01's two-call scenario)
+			one := RPC{Kind: "ss", Client: []string{"S0", "C", "R*"}, Handler: []string{"r", "s0", "ret:ok"}}
+			sc := &Scenario{Prop: "C04", Name: "cancel|codec|" + rpcName(one) + " || " + rpcName(one), Transport: tr, Cancel: "cancel", RPCs: []RPC{one, one}, Bound: -1, Opts: "codec"}
+			if tr == "inproc" {
+				sc.Cloner = "yield"
+			}
+			out = append(out, sc)
+		}
 		// Header() parked or issued around the cancellation
 		for _, c := range []string{"cancel", "deadline"} {
 			out = append(out, sc1("C04", c+"|"+rpcName(RPC{Kind: "ss", Client: []string{"S0", "C", "H", "R*", "H"}, Handler: []string{"r", "w", "ret:ctx"}}), tr, c,
@@ -181,6 +193,11 @@ func c04Oracle(sc *Scenario, rec *Rec, s *mc.Sched) []mc.Violation {
 			continue
 		}
 		complete := eqStrs(rr.CliRecv, ref.Msgs)
+		for _, m := range rr.Monitor {
+			if strings.HasPrefix(m, "prefix:client") || strings.HasPrefix(m, "late-write:") {
+				add("mixture", fmt.Sprintf("rpc%d: %s", i, m[strings.Index(m, ":")+1:]))
+			}
+		}
 		for k, f := range rr.Finals {
 			switch {
 			case f == "EOF" && rpc.Kind != "unary":
